@@ -298,6 +298,22 @@ fn main() {
             check_case_limited(l, mu.cfg, &spec, &menu);
         });
     }
+    // degenerate sliders (10 px: travel time of a few ms; a path without length with repeats; a perfect-circle curve) among
+    // circles at gaps of 20 ms / 10 ms after the end / 150 ms: N <= 4 over 12 symbols, default and fast-slider presets,
+    // reduced menu (time differences that shrink to the minimum or to zero sit in denominators)
+    for cfg in MODE_CFGS.iter().filter(|c| c.src == 0) {
+        let alpha = Alphabet::product(&[Kind::Circle, Kind::SliderTiny, Kind::SliderZeroRep, Kind::SliderPerfect], &[20, 150, gen::END_REL + 10], &[PosK::Far], &[0], &[0]);
+        let n = ctx.pick(4u32, 5);
+        let menu: Vec<Setting> = vec![Setting::nm(), Setting::bits(settings::DT | settings::FL), Setting { rate: Some(0.5), ..Setting::bits(settings::RX) }];
+        for preset in [gen::DiffPreset::D0, gen::DiffPreset::D2] {
+            let name = format!("degenerate-sliders/{preset:?}/{}to{}/N<={n}/|A|={}", cfg.src, cfg.dst, alpha.len());
+            let skip = alpha.count_upto(2);
+            ctx.universe(&name, alpha.count_upto(n) - skip, |idx, l| {
+                let spec = MapSpec { diff: preset, ..MapSpec::new(cfg.src, alpha.seq(idx + skip, n)) };
+                check_case_limited(l, *cfg, &spec, &menu);
+            });
+        }
+    }
     for cfg in MODE_CFGS.iter() {
         let kinds = if cfg.src == 3 { vec![Kind::Circle, Kind::Hold(0), Kind::Hold(300)] } else { vec![Kind::Circle, Kind::Slider2, Kind::Spinner(600)] };
         let menu = settings_menu(cfg.dst, rich);
